@@ -407,3 +407,5 @@ func describeDef(d *ref.TrigDef) string {
 	}
 	return s + "}"
 }
+
+func bigInt(v int64) *big.Int { return big.NewInt(v) }
